@@ -52,6 +52,23 @@ def parseMixed (s : String) : Option (Sum Int F64) :=
   | 'i' :: cs => (parseInt (String.ofList cs)).map .inl
   | _ => (parseHex s).map .inr
 
+/-- a signed chain term: `+123` is added, `-45` is subtracted (the cents themselves are ≥ 0 or < 0
+as written after the operator: `+-5` adds minus five cents) -/
+def parseTerm (s : String) : Option (Bool × Int) :=
+  match s.toList with
+  | '+' :: cs => (parseInt (String.ofList cs)).map fun c => (false, c)
+  | '-' :: cs => (parseInt (String.ofList cs)).map fun c => (true, c)
+  | _ => none
+
+def showCents (x : F64) : String :=
+  match centsOf x with
+  | some c => toString c
+  | none => "none"
+
+/-- `round(y, 2)`, the double of the exact cents, and the cents read back from `round(y, 2)` -/
+def centTriple (y : F64) (exact : Int) : String :=
+  showHex (roundN y 2) ++ " " ++ showHex (centD exact) ++ " " ++ showCents (roundN y 2)
+
 def un (s : String) (f : F64 → String) : String :=
   match parseHex s with
   | some x => f x
@@ -135,6 +152,53 @@ def step (line : String) : String :=
         (match pySumMixed s xs with
           | some r => showHex r
           | none => "OverflowError")
+      | _, _ => "bad-arg"
+  | ["cents", a] => un a showCents
+  | ["cdec", c] =>
+      match parseInt c with
+      | some c => showHex (centD c)
+      | none => "bad-arg"
+  | "cchain" :: c0 :: ts =>
+      match parseInt c0, ts.mapM parseTerm with
+      | some c0, some ts =>
+        let y := ts.foldl (fun acc t => if t.1 then sub acc (centD t.2) else add acc (centD t.2)) (centD c0)
+        let exact := ts.foldl (fun acc t => if t.1 then acc - t.2 else acc + t.2) c0
+        centTriple y exact
+      | _, _ => "bad-arg"
+  | "csum" :: c0 :: cs =>
+      match parseInt c0, cs.mapM parseInt with
+      | some c0, some cs =>
+        centTriple (pySum ((c0 :: cs).map centD)) (cs.foldl (· + ·) c0)
+      | _, _ => "bad-arg"
+  | ["cmax", a, b] =>
+      match parseInt a, parseInt b with
+      | some a, some b =>
+        showHex (pyMax (centD a) (centD b)) ++ " " ++ showCents (pyMax (centD a) (centD b)) ++ " " ++
+        showHex (pyMin (centD a) (centD b)) ++ " " ++ showCents (pyMin (centD a) (centD b))
+      | _, _ => "bad-arg"
+  | ["cmax0", a] =>
+      match parseInt a with
+      | some a =>
+        showHex (pyMax zero (centD a)) ++ " " ++ showCents (pyMax zero (centD a)) ++ " " ++
+        showHex (pyMax (centD a) zero) ++ " " ++ showCents (pyMax (centD a) zero)
+      | none => "bad-arg"
+  | ["ccmp", a, b] =>
+      match parseInt a, parseInt b with
+      | some a, some b =>
+        showBool (lt (centD a) (centD b)) ++ " " ++ showBool (le (centD a) (centD b)) ++ " " ++
+        showBool (eq (centD a) (centD b))
+      | _, _ => "bad-arg"
+  | ["ccmpint", a, n] =>
+      match parseInt a, parseInt n with
+      | some a, some n =>
+        showBool (ltInt (centD a) n) ++ " " ++ showBool (leInt (centD a) n) ++ " " ++
+        showBool (eqInt (centD a) n) ++ " " ++ showBool (geInt (centD a) n) ++ " " ++
+        showBool (gtInt (centD a) n)
+      | _, _ => "bad-arg"
+  | ["cmulrate", a, r] =>
+      match parseInt a, parseHex r with
+      | some a, some r =>
+        showHex (roundN (mul (centD a) r) 2) ++ " " ++ showCents (roundN (mul (centD a) r) 2)
       | _, _ => "bad-arg"
   | _ => "bad-op"
 
